@@ -50,6 +50,10 @@ type program struct {
 	HammerIters   int           `json:"hammer_iters,omitempty"`
 	HammerWorkers int           `json:"hammer_workers,omitempty"`
 	FreshSeed     uint64        `json:"fresh_seed,omitempty"`
+	// kind-focused programs hammer a second time: their revocation lists (OCSP responses) through a registry
+	// holding only the lints of that kind
+	KindFocus []string      `json:"kind_focus,omitempty"`
+	KindObjs  []engine.Case `json:"kind_objs,omitempty"`
 }
 
 // freshVariant gives the certificate names nobody has seen before in this process: three dNSNames whose first
@@ -389,7 +393,12 @@ func runProgram(p program) (sig, msg string) {
 			return e[0], e[1]
 		}
 	}
-	return hammer(p)
+	if sig, msg := hammer(p); msg != "" {
+		return sig, msg
+	}
+	p2 := p
+	p2.Focus, p2.HammerObjs = p.KindFocus, p.KindObjs
+	return hammer(p2)
 }
 
 // appliesSafely asks a fresh instance of the lint whether it applies (a panic counts as no).
@@ -524,6 +533,26 @@ func TestC10(t *testing.T) {
 					next++
 					p.Objects = append(p.Objects, engine.Case{Kind: o.Kind, DER: o.DER, Base: o.Name})
 				}
+			}
+			if focus <= 2 {
+				kind := gen.CRL
+				var ls []string
+				if focus == 2 {
+					kind = gen.OCSP
+					for _, l := range lint.GlobalRegistry().OcspResponseLints().Lints() {
+						ls = append(ls, l.Name)
+					}
+				} else {
+					for _, l := range lint.GlobalRegistry().RevocationListLints().Lints() {
+						ls = append(ls, l.Name)
+					}
+				}
+				for _, o := range p.Objects {
+					if o.Kind == kind {
+						p.KindObjs = append(p.KindObjs, o)
+					}
+				}
+				p.KindFocus = ls
 			}
 			nobj = len(p.Objects)
 			// a few objects whose verdict depends on a configurable lint's option
